@@ -1,0 +1,23 @@
+//go:build verif
+
+// Contracts for the verif build tag: comment-only, read by /verif/engine (govc).
+package server
+
+//@ # ---- C06: header-level admission on the datagram and stream listeners
+//@ # responses are ignored; opcodes other than QUERY/NOTIFY get NOTIMP; bad section counts get FORMERR
+//@ func acceptHeader
+//@   arith bv
+//@   modifies nothing
+//@   ensures h.Flags & 32768 != 0 ==> result == acceptIgnore
+//@   ensures h.Flags & 32768 == 0 && (h.Flags >> 11) & 15 != 0 && (h.Flags >> 11) & 15 != 4 ==> result == acceptNotImplemented
+//@   ensures h.Flags & 32768 == 0 && ((h.Flags >> 11) & 15 == 0 || (h.Flags >> 11) & 15 == 4) && (h.QDCount != 1 || h.ANCount > 1 || h.NSCount > 1 || h.ARCount > 2) ==> result == acceptFormatError
+//@   ensures h.Flags & 32768 == 0 && ((h.Flags >> 11) & 15 == 0 || (h.Flags >> 11) & 15 == 4) && h.QDCount == 1 && h.ANCount <= 1 && h.NSCount <= 1 && h.ARCount <= 2 ==> result == acceptOK
+//@
+//@ # the in-place rejection: twelve octets, ID echoed, QR set, opcode and RD echoed, RCODE 4 (NOTIMP) or 1 (FORMERR), counts zero
+//@ func (*udpJob).rejectInPlace
+//@   arith bv
+//@   requires j != nil
+//@   assert at call (*server.udpJob).Write#1: len(arg1) == 12 && arg1[0] == j.rx[0] && arg1[1] == j.rx[1]
+//@   assert at call (*server.udpJob).Write#1: arg1[2] == 128 | (((j.rx[2] >> 3) & 15) << 3) | (j.rx[2] & 1)
+//@   assert at call (*server.udpJob).Write#1: arg1[3] == ite(verdict == acceptNotImplemented, uint8(4), uint8(1))
+//@   assert at call (*server.udpJob).Write#1: arg1[4] == 0 && arg1[5] == 0 && arg1[6] == 0 && arg1[7] == 0 && arg1[8] == 0 && arg1[9] == 0 && arg1[10] == 0 && arg1[11] == 0
